@@ -208,6 +208,7 @@ class ProgGen:
         scope = [(g, "num") for g in self.globals_val]
         for _ in range(nforms):
             forms.append(self.expr(self.r.choice(["num", "list", "any", "any"]), scope, depth))
+        self.forms = forms
         return " ".join(forms)
 
 CORE = {"globals", "closure", "rest"}
@@ -218,3 +219,11 @@ def gen_program(rng, features, max_nodes=40, depth=4, nforms=1):
     ill = 0 if w < 14 else 1 if w < 19 else 3
     g = ProgGen(rng, features, max_nodes, ill)
     return g.program(depth, nforms), g.stats
+
+def gen_program_parts(rng, features, max_nodes=40, depth=4, illtyped=None):
+    """(prologue forms, final expression, stats)"""
+    w = rng.below(20)
+    ill = illtyped if illtyped is not None else (0 if w < 14 else 1 if w < 19 else 3)
+    g = ProgGen(rng, features, max_nodes, ill)
+    g.program(depth, 1)
+    return g.forms[:-1], g.forms[-1], g.stats
